@@ -1459,6 +1459,80 @@ class Path:
                 return lab
         return None
 
+    def feasible(self):
+        """False when the path takes a switch edge that contradicts a value the path itself assigned: constants,
+        field-less / wrapping aggregates and their discriminants are followed through whole-value copies and
+        (downcast) field projections of locals whose address is never taken.  Anything else is unknown, and an
+        unknown value never makes a path infeasible."""
+        b = self.body
+        escaped = getattr(b, '_escaped_locals', None)
+        if escaped is None:
+            escaped = set()
+            for bl in b.blocks:
+                for st in bl['stmts']:
+                    if st['k'] == 'assign' and st['rv']['k'] in ('ref', 'rawptr') and not any(e == 'deref' for e in st['rv']['place']['p']) \
+                            and (st['rv']['k'] == 'rawptr' or st['rv'].get('mut')):
+                        escaped.add(st['rv']['place']['l'])
+            b._escaped_locals = escaped
+        env = {}
+
+        def val(op):
+            if op['k'] == 'const':
+                return ('c', op.get('bits'), op.get('text')) if op.get('bits') is not None else None
+            if op['k'] not in ('copy', 'move'):
+                return None
+            v = env.get(op['place']['l'])
+            for e in op['place']['p']:
+                if v is None:
+                    return None
+                if e == 'deref':
+                    return None
+                if isinstance(e, dict) and 'f' in e:
+                    v = v[3][e['f']] if v[0] == 'v' and e['f'] < len(v[3]) else None
+                elif isinstance(e, dict) and ('downcast' in e or 'variant' in e):
+                    continue
+                else:
+                    return None
+            return v
+        taken = dict(self.decisions)
+        for bb in self.blocks:
+            bl = b.blocks[bb]
+            for st in bl['stmts']:
+                if st['k'] != 'assign':
+                    continue
+                l = st['place']['l']
+                if st['place']['p'] or l in escaped:
+                    env.pop(l, None)
+                    continue
+                rv = st['rv']
+                v = None
+                if rv['k'] == 'use':
+                    v = val(rv['op'])
+                elif rv['k'] == 'aggregate' and rv.get('adt') is not None and 'variant' in rv:
+                    v = ('v', rv['adt'], rv['variant'], [val(o) for o in rv['ops']])
+                elif rv['k'] == 'discr':
+                    w = val({'k': 'copy', 'place': rv['place']})
+                    if w is not None and w[0] == 'v':
+                        v = ('c', str(w[2]), None)
+                if v is None:
+                    env.pop(l, None)
+                else:
+                    env[l] = v
+            t = bl['term']
+            if t['k'] == 'call' and t.get('dest') is not None:
+                env.pop(t['dest']['l'], None)
+            if t['k'] == 'switch' and bb in taken:
+                v = val(t['discr'])
+                if v is not None and v[0] == 'c' and v[1] is not None:
+                    try:
+                        n = int(v[1], 0) if isinstance(v[1], str) else int(v[1])
+                    except ValueError:
+                        continue
+                    want = 'sw:%d' % n if any(str(x) == str(n) for x, _ in t['targets']) else 'otherwise'
+                    if taken[bb] != want and taken[bb].startswith(('sw:', 'otherwise')):
+                        return False
+        return True
+
     def stores_through(self, local):
         """assignments whose destination is behind a deref / field of `local`"""
         return [(bb, j, s) for bb, j, s in self.stmts()
